@@ -691,7 +691,10 @@ def _get_fcp(
     filesystem_proxy: IFileSystemProxy,
     logger: Logger,
 ) -> Result[v2.FcpV2, FcpError]:
-    source = filesystem_proxy.read(filename)
+    try:
+        source = filesystem_proxy.read(filename)
+    except (OSError, UnicodeError) as e:
+        return error(f"Cannot read {filename}: {e}")
     logger.add_source(str(filename), source)
     try:
         fcp_ast = fcp_parser.parse(source)
